@@ -212,6 +212,13 @@ package machine
 //@   inline
 //@   property C03
 
+// ---- C08: a number written to transaction or account metadata is rendered in full: its decimal text, whatever its size
+// or sign (numbers are unbounded integers, not machine words)
+//@ func machine.NewStringFromValue
+//@   ensures err == nil && typeis(value, "*machine.MonetaryInt") && as(value, "*machine.MonetaryInt") != nil ==> ret0 == intString(val(as(value, "*machine.MonetaryInt"))) // C08
+//@   modifies nothing
+//@   property C08
+
 // ---- C03 C01: amounts are unbounded integers: a sum or a difference is the mathematical one whatever the size of the
 // operands (no detour through a machine word); a missing operand counts as zero
 //@ func (*machine.MonetaryInt).Add
